@@ -29,11 +29,11 @@ mutual
 end
 
 mutual
-  /-- no unset (`nil`) userset anywhere: what the printer can print at all -/
+  /-- no unset (`nil`) userset and no operator without operands anywhere: what the printer can print at all -/
   def noNil : Userset → Bool
     | .nil => false
-    | .union cs => noNilL cs
-    | .inter cs => noNilL cs
+    | .union cs => !cs.isEmpty && noNilL cs
+    | .inter cs => !cs.isEmpty && noNilL cs
     | .diff b s => noNil b && noNil s
     | _ => true
   def noNilL : List Userset → Bool
